@@ -310,12 +310,15 @@ ObserveOf(ps, ca, po) ==
   [ hold   |-> [p \in ps |-> HoldingsOf(po, p)],
     tmv    |-> [p \in ps |-> MvOf(po, p)],
     teq    |-> [p \in ps |-> ca[p] + MvOf(po, p)],
-    trp    |-> [p \in ps |-> RSumOver(DOMAIN po[p], [a \in DOMAIN po[p] |-> Realised(po[p][a])])],
-    tup    |-> [p \in ps |-> RSumOver(DOMAIN po[p], [a \in DOMAIN po[p] |-> Unrealised(po[p][a])])],
-    ttp    |-> [p \in ps |-> RSumOver(DOMAIN po[p], [a \in DOMAIN po[p] |-> Total(po[p][a])])],
     \* account totals: always obtainable; "master" is the sum of the per-portfolio figures
     acctEq |-> SumOver(ps, [p \in ps |-> ca[p] + MvOf(po, p)]),
     acctMv |-> SumOver(ps, [p \in ps |-> MvOf(po, p)]) ]
+
+\* portfolio-level P&L totals (exact; small instances only: the sums cross-multiply)
+PnlTotalsOf(ps, po) ==
+  [ trp |-> [p \in ps |-> RSumOver(DOMAIN po[p], [a \in DOMAIN po[p] |-> Realised(po[p][a])])],
+    tup |-> [p \in ps |-> RSumOver(DOMAIN po[p], [a \in DOMAIN po[p] |-> Unrealised(po[p][a])])],
+    ttp |-> [p \in ps |-> RSumOver(DOMAIN po[p], [a \in DOMAIN po[p] |-> Total(po[p][a])])] ]
 
 PfMarketValue(p) == MvOf(pos, p)
 PfEquity(p)      == cash[p] + PfMarketValue(p)
@@ -415,7 +418,7 @@ C04_Step ==
 
 \* ---- C05 ----
 C05_Fills ==
-  [][ \A k \in 1..Len(batch') :
+  [][ call'.op = "update" => \A k \in 1..Len(batch') :
         LET f == batch'[k] IN
         /\ f.qty > 0 => f.px = quote[f.asset].ask
         /\ f.qty < 0 => f.px = quote[f.asset].bid
